@@ -63,6 +63,17 @@ class VwSlotsPosSub(VwSlotsPos):
         super().__init__(*args)
         self.extra = "e"
 
+class VwPosSlots:
+    """slots-only; the constructor mixes a positional-only parameter with ordinary ones"""
+    __slots__ = ("ident", "name", "size", "_p")
+    def __init__(self, ident, /, name=None, size=0):
+        self.ident, self.name, self.size, self._p = ident, name, size, "private"
+
+class VwPosVars:
+    """vars-only, same constructor shape"""
+    def __init__(self, ident, /, name=None, *, size=0):
+        self.ident, self.name, self.size, self._p = ident, name, size, "private"
+
 class VwVars:
     def __init__(self, a, b=None):
         self.a = a
@@ -114,11 +125,11 @@ class VwSame:
         self.y = b
 '''
 
-CLASSES = ["VwDC", "VwNT", "VwNT1", "VwPlain", "VwPlainCV", "VwSlots", "VwSlotsPos", "VwSlotsPos", "VwVars", "VwVarsDyn", "VwVarsDyn", "vw0same", "vw1same"]
+CLASSES = ["VwDC", "VwNT", "VwNT1", "VwPlain", "VwPlainCV", "VwSlots", "VwSlotsPos", "VwSlotsPos", "VwPosSlots", "VwPosVars", "VwVars", "VwVarsDyn", "VwVarsDyn", "vw0same", "vw1same"]
 # expected public (field, attribute) names per class, in order
 PUBLIC = {
     "VwDC": ["a", "b"], "VwNT": ["first", "second"], "VwNT1": ["only"], "VwPlain": ["a", "b"], "VwPlainCV": ["a"],
-    "VwSlots": ["a", "b"], "VwSlotsPos": ["x", "y", "zed", "w", "kappa"], "VwVars": ["a", "b"], "vw0same": ["a"], "vw1same": ["z", "y"],
+    "VwSlots": ["a", "b"], "VwSlotsPos": ["x", "y", "zed", "w", "kappa"], "VwPosSlots": ["ident", "name", "size"], "VwPosVars": ["ident", "name", "size"], "VwVars": ["a", "b"], "vw0same": ["a"], "vw1same": ["z", "y"],
 }
 
 
@@ -290,6 +301,8 @@ class C18(PropBase):
                 vals = {"a": a, "b": b, "first": a, "second": b, "only": a, "z": a, "y": b}
                 if cname == "VwSlotsPos":
                     vals = {"x": a, "y": b, "zed": 3, "w": "w", "kappa": None}
+                if cname in ("VwPosSlots", "VwPosVars"):
+                    vals = {"ident": a, "name": b, "size": 0}
                 items = [(nm, vals[nm]) for nm in names]
             return x, items, [v for _, v in items], {"reiterable": True, "struct": True}
         if kind in ("list", "tuple", "deque", "set", "frozenset"):
